@@ -22,6 +22,9 @@ func TestModelTokenize(t *testing.T) {
 		{`"san fran" and`, []string{"san fran", "and"}, true},
 		{`""`, []string{""}, true},
 		{`a "" b`, []string{"a", "", "b"}, true},
+		{"a\tb\nc\fd\re", []string{"a", "b", "c", "d", "e"}, true},
+		{"a\u00A0b c\vd\u3000e\u2028f", []string{"a\u00A0b", "c\vd\u3000e\u2028f"}, true},
+		{"\u00A0", []string{"\u00A0"}, true},
 		{`a"b"`, nil, false},
 		{`"a"b`, nil, false},
 		{`"abc`, nil, false},
